@@ -61,7 +61,7 @@ def reader(loader):
     return out
 
 
-TASKS = [StructTask("writer", writer), StructTask("reader", reader)]
+TASKS = [StructTask("writer", writer, textual=True), StructTask("reader", reader, textual=True)]
 
 META = dict(
     level="other",
